@@ -67,11 +67,12 @@ where
             // update high and low values if needed
             if old_val >= self.high {
                 // re-compute high
+                // (with window_len 1 nothing is left, the new value is the window)
                 self.high = *self
                     .q_vals
                     .iter()
                     .max_by(|x, y| x.partial_cmp(y).unwrap_or(Ordering::Equal))
-                    .unwrap();
+                    .unwrap_or(&val);
             }
             if old_val <= self.low {
                 // re-compute low
@@ -79,7 +80,7 @@ where
                     .q_vals
                     .iter()
                     .min_by(|x, y| x.partial_cmp(y).unwrap_or(Ordering::Equal))
-                    .unwrap();
+                    .unwrap_or(&val);
             }
         }
         self.q_vals.push_back(val);
